@@ -105,6 +105,30 @@ fn main() {
         }
         c.add_sweep("pci-window-geometry: notifications and configuration accesses of width 1/2/4 up to 8 bytes past windows whose declared length is not a multiple of the access width", ev, cases, true, J::obj());
     }
+    // Part E: configuration-space accesses against the window the device declares (MMIO: the
+    // region size; PCI: the capability length). An access that does not lie wholly inside the
+    // window must not reach the device's memory, whatever length the device reports.
+    {
+        let mut ev = 0u64;
+        let mut cases = 0u64;
+        for tk in [TKind::MmioLegacy, TKind::MmioModern, TKind::Pci] {
+            for wnd in [0usize, 1, 2, 3, 4, 7, 8, 9, 12, 16, 17, 24] {
+                if tk == TKind::Pci && wnd < 4 {
+                    continue;
+                }
+                let r = vlab::c13::bounds_case(tk, Some(wnd));
+                ev += r.evals;
+                cases += 1;
+                let mut seen = std::collections::HashSet::new();
+                for (k, d) in r.viols {
+                    if (k.starts_with("config-access-out-of-window") || k.starts_with("config-access-stray")) && seen.insert(k.clone()) {
+                        c.add_violation(Violation::new("C07", format!("config-window:{}", k), format!("{} transport, configuration window of {} bytes: {}", tk.name(), wnd, d)), "config-window-bounds", J::obj().set("kind", J::s("case")).set("case", J::s(d)), vec![]);
+                    }
+                }
+            }
+        }
+        c.add_sweep("config-window-bounds: every access type at every aligned offset up to 8 bytes past configuration windows of 0..24 bytes on MMIO (legacy, modern) and PCI", ev, cases, true, J::obj());
+    }
     vlab::tracer::install_handlers();
     vlab::crash::install();
     for (name, p) in parts(args.tier) {
